@@ -551,7 +551,12 @@ def shrink(ctx, run_, code, cfg, f, budget=10):
         ids = classify_batch(ctx, run_, hits)
         return [(c, ff) for (c, g, r, ff), i in zip(hits, ids) if i is None]
     cur, curf = code, f
+    import time as _time
+    if not hasattr(ctx, '_shrink_deadline'):
+        ctx._shrink_deadline = _time.time() + (90 if ctx.tier == 'quick' else 600)   # shrinking is best effort and bounded
     for _ in range(budget):
+        if _time.time() > ctx._shrink_deadline:
+            break
         cands = []
         lines = cur.split('\n')
         n = len(lines)
@@ -563,8 +568,8 @@ def shrink(ctx, run_, code, cfg, f, budget=10):
             for i in range(0, L, max(1, size // 2)):
                 cands.append(cur[:i] + cur[i + size:])
         cands = [x for x in dict.fromkeys(cands) if len(x) < len(cur)]
-        if len(cands) > 300:
-            cands = ctx.rng.sample(cands, 300)
+        if len(cands) > 120:
+            cands = ctx.rng.sample(cands, 120)
         good = failing(cands)
         if not good:
             break
